@@ -91,7 +91,7 @@ func genHistory(r *vh.Rand, store int, last string, maintBefore bool) Case {
 	c := Case{Kind: "hist", Store: store}
 	kinds := []string{"log", "log_big", "merge", "merge_big", "merge_replace", "gc", "maint", "marshal"}
 	if store == storeSilence {
-		kinds = []string{"set", "set_big", "update", "expire", "merge", "merge_big", "merge_replace", "gc", "maint", "marshal"}
+		kinds = []string{"set", "set_big", "set_far", "update", "expire", "merge", "merge_big", "merge_replace", "gc", "maint", "marshal"}
 	}
 	n := r.Range(1, 7)
 	id := 0
@@ -161,7 +161,7 @@ func maxTime(a, b time.Time) time.Time {
 
 func historyKinds(store int) []string {
 	if store == storeSilence {
-		return []string{"set", "set_big", "update", "expire", "merge", "merge_big", "merge_replace", "gc"}
+		return []string{"set", "set_big", "set_far", "update", "expire", "merge", "merge_big", "merge_replace", "gc"}
 	}
 	return []string{"log", "log_big", "merge", "merge_big", "merge_replace", "gc"}
 }
@@ -337,6 +337,16 @@ func historyCase(t *testing.T, run *vh.Run, c *Case) {
 			} else {
 				sil.Comment = strings.Repeat("long comment ", op.Idx/13+1)
 			}
+			if err := s.Set(ctx, sil); err != nil {
+				t.Fatalf("Set: %v", err)
+			}
+			local = append(local, sil.Id)
+		case "set_far":
+			// "silence forever": an end time at the upper end of the documented timestamp range; the stored expiry
+			// (end + retention) lies beyond it
+			end := time.Unix(maxTS, 0).Add(-time.Duration(op.Idx%50) * time.Minute)
+			sil := &spb.Silence{MatcherSets: []*spb.MatcherSet{{Matchers: []*spb.Matcher{{Name: "job", Pattern: op.Txt}}}},
+				StartsAt: timestamppb.New(now), EndsAt: timestamppb.New(end), Comment: "forever-" + op.Txt, CreatedBy: "me"}
 			if err := s.Set(ctx, sil); err != nil {
 				t.Fatalf("Set: %v", err)
 			}
